@@ -40,10 +40,10 @@ class In(object):
         if self.pos < len(self.answers):
             ans = self.answers[self.pos]
             self.pos += 1
-            self.events.append({"ev": "Read", "prompt": esc(prompt), "answer": esc(ans)})
+            self.events.append({"ev": "Read", "prompt": esc(prompt), "shown": esc(shown), "answer": esc(ans)})
             r = ans + "\n"
             return r if sys.version_info[0] > 2 else r.encode("utf-8")
-        self.events.append({"ev": "Eof", "prompt": esc(prompt)})
+        self.events.append({"ev": "Eof", "prompt": esc(prompt), "shown": esc(shown)})
         return "" if sys.version_info[0] > 2 else b""
 
     def read(self, *a):
@@ -80,7 +80,7 @@ def session(it):
             events.append({"ev": "Raise", "exc": type(e).__name__})
     finally:
         sys.stdin, sys.stdout, sys.stderr = old
-    return {"bver": it["bver"], "all": it["all"], "events": events, "consumed": inp.pos, "script_len": len(it["script"]),
+    return {"bver": it["bver"], "all": it["all"], "colours": not it.get("no_colors", True), "events": events, "consumed": inp.pos, "script_len": len(it["script"]),
             "stderr": esc(err.text())[:200], "stdout_len": len(out.text())}
 
 
